@@ -99,6 +99,12 @@ class Backends:
 
     def table(self, backend: str, si: int, name: str | None = None):
         s = self.srcs[si]
+        if backend in ("postgres", "mssql"):
+            from . import dialects as D
+
+            if not hasattr(self, "dialect_engines"):
+                self.dialect_engines = D.engines()
+            return pdt.Table(D.sqa_table(s["name"], s["cols"]), pdt.SqlAlchemy(self.dialect_engines[backend]), name=name or s["name"])
         if backend == "polars":
             return pdt.Table(self.frames[si], name=name or s["name"])
         return pdt.Table(self.sqa_tables[s["name"]], pdt.SqlAlchemy(self.engine), name=name or s["name"])
